@@ -95,7 +95,7 @@ Fixture == << Cmd("R", "EEMSRead", FALSE), Cmd("R2", "EEMSRead", FALSE),
               <<"B", "PrintVars", << <<"InFieldNames", <<"list", <<<<"ref", "R">>>>>> >> >> >>,
               Cmd("W", "EEMSWrite", FALSE) >>
 
-WrongCandidates == {<<"str", "word">>, <<"int", "other">>, <<"float">>, <<"list", <<<<"int", "other">>>>>>, <<"list", <<>>>>, <<"dict", "strs">>,
+WrongCandidates == {<<"str", "word">>, <<"int", "other">>, <<"int", "bit">>, <<"str", "empty">>, <<"float">>, <<"list", <<<<"int", "other">>>>>>, <<"list", <<>>>>, <<"dict", "strs">>,
                     <<"str", "rel_missing">>, <<"str", "boolword">>, <<"list", <<<<"str", "word">>, <<"int", "other">>>>>>,
                     <<"list", <<<<"list", <<<<"int", "other">>>>>>>>>>}
 \* C13 asks about every kind confusion, also those whose outcome the parameter table leaves unspecified
